@@ -26,7 +26,7 @@ def classify(h):
             for n in ns:
                 if n.seq < u.seq and (n.proc_step is None or n.proc_step > u.trig_step):
                     uan = True
-        if isinstance(due, float) and due != int(due) and len(occs) >= 2:
+        if isinstance(due, float) and due != float("inf") and due != int(due) and len(occs) >= 2:
             classes.add("float-sum instant")
     if uan:
         classes.add("urgent-after-normal")
@@ -90,6 +90,26 @@ def run_bigclock(case):
     return {"nontrivial": odd and "same-class-tie>=2" in classes, "classes": sorted(classes)}
 
 
+def infinite_strategy(tier):
+    """delays may be infinite (the 'park forever' idiom): such a timeout is due at t = inf and takes effect then, after everything
+    finite, in trigger order among its peers"""
+    inf_ = float("inf")
+    ds = [0, 1, 2, 0.5, inf_, inf_, 1]
+    pol = kgen.policies(bias=["continue"] * 4, dl=kgen.st.sampled_from([0, 1, inf_]))
+    return kgen.programs(WEIGHTS, max_bodies=5, max_instrs=6, max_start=6, min_instrs=2, min_start=2, pol=pol, ipol=pol, delay_set=ds)
+
+
+def run_infinite(case):
+    res = kdsl.run_program(case)
+    nt, classes = classify(res.h)
+    n_inf = sum(1 for o in res.h.occs if o.due == float("inf") and o.proc_step is not None)
+    if n_inf:
+        classes.add("occurrence due at infinity took effect")
+    if n_inf >= 2:
+        classes.add(">=2 occurrences at infinity")
+    return {"nontrivial": n_inf >= 2, "classes": sorted(classes)}
+
+
 def cond_strategy(tier):
     from . import c05
     return c05.strategy(tier)
@@ -127,7 +147,8 @@ PROP = Property(
           "in floating point): the stop is a reference-agenda entry of the urgent class due at exactly t, so it must take effect "
           "at now == t, before ordinary events of t and after everything earlier; non-trivial = a stop at an instant with other "
           "occurrences due. Facet bigclock: the same programs on integer clocks beyond 2**53 with integer "
-          "delays. Facet conditions: programs waiting on all_of/any_of trees; a condition is an ordinary occurrence "
+          "delays. Facet infinite: delays of float('inf'); those "
+          "occurrences are due at t = inf and take effect there, after everything finite. Facet conditions: programs waiting on all_of/any_of trees; a condition is an ordinary occurrence "
           "triggered when its deciding operand is processed and keeps its place in trigger order."),
     facets=[Facet("programs", strategy, run_case, quick=3000, thorough=20000,
                   essential=["urgent-after-normal", "same-class-tie>=2", "zero-delay chain", "float-sum instant",
@@ -136,6 +157,8 @@ PROP = Property(
                   essential=["stop at busy instant", "stop at float-inexact offset"]),
             Facet("bigclock", bigclock_strategy, run_bigclock, quick=600, thorough=4000,
                   essential=["instant that no float represents", "same-class-tie>=2"]),
+            Facet("infinite", infinite_strategy, run_infinite, quick=600, thorough=4000,
+                  essential=["occurrence due at infinity took effect", ">=2 occurrences at infinity"]),
             Facet("conditions", cond_strategy, run_cond, quick=1200, thorough=8000,
                   essential=["condition triggered behind a pending ordinary occurrence of its instant"])],
     assumptions=["every event reaches the agenda through Environment.schedule (tracing subclass overrides it)",
